@@ -268,24 +268,24 @@ Section WF.
     destruct key as [|i r]; [inversion Hk|]. cbn [Model.insert] in H.
     destruct Hn as [->|Hn].
     { injection H as _ <-. constructor; auto. }
-    inversion Hn; subst.
+    inversion Hn as [k0 v0 Hvk | k0 cs0 Hne Hnb Hfull | cs0 Hlen Hch H16 Htwo]; subst.
     - (* leaf *)
-      set (m := prefix_len (i :: r) k) in *.
-      destruct (m =? length k) eqn:E.
+      set (m := prefix_len (i :: r) k0) in *.
+      destruct (m =? length k0) eqn:E.
       + apply Nat.eqb_eq in E. unfold m in E. rewrite prefix_len_comm in E.
-        apply vkey_prefix_eq in E; auto. subst k.
+        apply vkey_prefix_eq in E; auto. subst k0.
         unfold m in H. rewrite prefix_len_refl in H.
         replace (skipn (length (i :: r)) (i :: r)) with (@nil nat) in H by (symmetry; apply skipn_all).
         destruct f; [cbn in Hf; lia|]. cbn in H.
         destruct (veqb v0 v); cbn in H; injection H as _ <-; constructor; auto.
       + apply Nat.eqb_neq in E.
-        assert (Nk : i :: r <> k) by (intros <-; apply E; unfold m; rewrite prefix_len_refl; auto).
-        destruct (vkey_neq_split _ _ Hk H0 Nk) as [M1 M2]. fold m in M1, M2.
+        assert (Nk : i :: r <> k0) by (intros <-; apply E; unfold m; rewrite prefix_len_refl; auto).
+        destruct (vkey_neq_split _ _ Hk Hvk Nk) as [M1 M2]. fold m in M1, M2.
         destruct f; [cbn in Hf; lia|]. rewrite !insert_nil in H. cbn [snd] in H.
-        assert (B : wf (Full (upd (upd empty_children (nth m k 0) (mk_leaf (skipn (S m) k) (Value v0)))
+        assert (B : wf (Full (upd (upd empty_children (nth m k0 0) (mk_leaf (skipn (S m) k0) (Value v0)))
                                   (nth m (i :: r) 0) (mk_leaf (skipn (S m) (i :: r)) (Value v))))).
         { apply branch_wf.
-          - intros Q. apply (prefix_len_nth_neq (i :: r) k); auto. symmetry; auto.
+          - intros Q. apply (prefix_len_nth_neq (i :: r) k0); auto; fold m; symmetry; auto.
           - apply leaf_slot; auto.
           - apply leaf_slot; auto. }
         destruct (m =? 0) eqn:Z; injection H as _ <-; auto.
@@ -294,24 +294,24 @@ Section WF.
         inversion B; subst. constructor; auto.
         intros Q. apply (f_equal (@length nat)) in Q. rewrite firstn_length in Q. cbn [length] in *. lia.
     - (* extension *)
-      set (m := prefix_len (i :: r) k) in *.
-      pose proof (vkey_vs_nibs _ _ Hk H1) as M1. fold m in M1.
-      pose proof (prefix_len_le_r (i :: r) k) as M2. fold m in M2.
-      destruct (m =? length k) eqn:E.
+      set (m := prefix_len (i :: r) k0) in *.
+      pose proof (vkey_vs_nibs _ _ Hk Hnb) as M1. fold m in M1.
+      pose proof (prefix_len_le_r (i :: r) k0) as M2. fold m in M2.
+      destruct (m =? length k0) eqn:E.
       + apply Nat.eqb_eq in E.
-        destruct (insert f (Full cs) (skipn m (i :: r)) (Value v)) as [d' c'] eqn:I.
+        destruct (insert f (Full cs0) (skipn m (i :: r)) (Value v)) as [d' c'] eqn:I.
         assert (Ks : vkey (skipn m (i :: r))) by (rewrite E; apply vkey_skip_nibs; auto).
-        assert (L1 : 1 <= length k) by (destruct k; cbn; [congruence|lia]).
+        assert (L1 : 1 <= length k0) by (destruct k0; cbn; [congruence|lia]).
         assert (W : wf c').
-        { eapply IHf; [right; exact H2|exact Ks| |exact I]. rewrite skipn_length. cbn [length] in *. lia. }
+        { eapply IHf; [right; exact Hfull|exact Ks| |exact I]. rewrite skipn_length. cbn [length] in *. lia. }
         destruct (insert_full_is_full _ _ _ _ _ _ I (vkey_nonempty _ Ks)) as [cs' ->].
         destruct d'; injection H as _ <-; auto. constructor; auto.
-      + apply Nat.eqb_neq in E. assert (M3 : m < length k) by lia.
+      + apply Nat.eqb_neq in E. assert (M3 : m < length k0) by lia.
         destruct f; [cbn in Hf; lia|]. rewrite !insert_nil in H. cbn [snd] in H.
-        assert (B : wf (Full (upd (upd empty_children (nth m k 0) (mk_leaf (skipn (S m) k) (Full cs)))
+        assert (B : wf (Full (upd (upd empty_children (nth m k0 0) (mk_leaf (skipn (S m) k0) (Full cs0)))
                                   (nth m (i :: r) 0) (mk_leaf (skipn (S m) (i :: r)) (Value v))))).
         { apply branch_wf.
-          - intros Q. apply (prefix_len_nth_neq (i :: r) k); auto. symmetry; auto.
+          - intros Q. apply (prefix_len_nth_neq (i :: r) k0); auto; fold m; symmetry; auto.
           - apply ext_slot; auto.
           - apply leaf_slot; auto. }
         destruct (m =? 0) eqn:Z; injection H as _ <-; auto.
@@ -320,17 +320,17 @@ Section WF.
         inversion B; subst. constructor; auto.
         intros Q. apply (f_equal (@length nat)) in Q. rewrite firstn_length in Q. cbn [length] in *. lia.
     - (* full *)
-      destruct (insert f (child cs i) r (Value v)) as [d' c'] eqn:I.
+      destruct (insert f (child cs0 i) r (Value v)) as [d' c'] eqn:I.
       destruct d'; injection H as _ <-; auto.
       apply full_upd_wf; auto.
       apply vkey_cons_inv in Hk. destruct Hk as [[-> ->]|[Li Hr]].
       + right; split; auto.
         destruct f; [cbn in Hf; lia|]. cbn in I.
-        destruct H1 as [Q|[v0 Q]]; rewrite Q in I.
-        * injection I as _ <-; eauto.
-        * destruct (veqb v0 v); injection I as _ <-; eauto.
+        destruct H16 as [Q|[v1 Q]]; rewrite Q in I.
+        * inversion I; subst; eauto.
+        * destruct (veqb v1 v); inversion I; subst; eauto.
       + left; split; auto. eapply IHf; [| exact Hr | | exact I].
-        * destruct (child cs i) eqn:Q; [left; auto|right; rewrite <- Q; apply H0; auto; rewrite Q; discriminate..].
+        * destruct (child cs0 i) eqn:Q; [left; auto|right; rewrite <- Q; apply Hch; auto; rewrite Q; discriminate..].
         * cbn in Hf; lia.
   Qed.
 
@@ -342,50 +342,50 @@ Section WF.
     induction f; intros n key d nn Hn Hk Hf H; [lia|].
     pose proof (vkey_length _ Hk) as Lk.
     cbn [Model.delete] in H.
-    inversion Hn; subst.
+    inversion Hn as [k0 v0 Hvk | k0 cs0 Hne Hnb Hfull | cs0 Hlen Hch H16 Htwo]; subst.
     - (* leaf *)
-      set (m := prefix_len key k) in *.
-      destruct (m <? length k) eqn:E; [injection H as _ <-; right; auto|].
-      apply Nat.ltb_ge in E. pose proof (prefix_len_le_r key k). fold m in H1.
-      assert (Q : prefix_len k key = length k) by (rewrite prefix_len_comm; fold m; lia).
-      apply vkey_prefix_eq in Q; auto. subst k.
+      set (m := prefix_len key k0) in *.
+      destruct (m <? length k0) eqn:E; [injection H as _ <-; right; auto|].
+      apply Nat.ltb_ge in E. pose proof (prefix_len_le_r key k0) as Hm1. fold m in Hm1.
+      assert (Q : prefix_len k0 key = length k0) by (rewrite prefix_len_comm; fold m; lia).
+      apply vkey_prefix_eq in Q; auto. subst k0.
       unfold m in H. rewrite prefix_len_refl, Nat.eqb_refl in H. injection H as _ <-. left; auto.
     - (* extension *)
-      set (m := prefix_len key k) in *.
-      destruct (m <? length k) eqn:E; [injection H as _ <-; right; auto|].
-      apply Nat.ltb_ge in E. pose proof (prefix_len_le_r key k) as M2. fold m in M2.
-      pose proof (vkey_vs_nibs _ _ Hk H1) as M1. fold m in M1.
+      set (m := prefix_len key k0) in *.
+      destruct (m <? length k0) eqn:E; [injection H as _ <-; right; auto|].
+      apply Nat.ltb_ge in E. pose proof (prefix_len_le_r key k0) as M2. fold m in M2.
+      pose proof (vkey_vs_nibs _ _ Hk Hnb) as M1. fold m in M1.
       destruct (m =? length key) eqn:E2; [apply Nat.eqb_eq in E2; lia|].
-      destruct (delete f (Full cs) (skipn (length k) key)) as [d' c'] eqn:D.
-      assert (Ks : vkey (skipn (length k) key)) by (apply vkey_skip_nibs; auto; fold m; lia).
-      assert (L1 : 1 <= length k) by (destruct k; cbn; [congruence|lia]).
-      assert (W : wf c').
-      { apply (IHf (Full cs) _ d' c'); auto. rewrite skipn_length; lia. }
+      destruct (delete f (Full cs0) (skipn (length k0) key)) as [d' c'] eqn:D.
+      assert (Ks : vkey (skipn (length k0) key)) by (apply vkey_skip_nibs; auto; fold m; lia).
+      assert (L1 : 1 <= length k0) by (destruct k0; cbn; [congruence|lia]).
+      assert (Lf : length (skipn (length k0) key) < f) by (rewrite skipn_length; lia).
+      pose proof (IHf (Full cs0) _ d' c' Hfull Ks Lf D) as W. cbn in W.
       destruct d'; [|injection H as _ <-; right; auto].
       right. inversion W; subst; injection H as _ <-.
       + constructor. apply vkey_app; auto.
-      + constructor; auto. { destruct k; [congruence|discriminate]. } apply nibs_app; auto.
+      + constructor; auto. { destruct k0; [congruence|discriminate]. } apply nibs_app; auto.
       + constructor; auto.
     - (* full *)
       destruct key as [|i r]; [inversion Hk|].
-      destruct (delete f (child cs i) r) as [d' c'] eqn:D.
+      destruct (delete f (child cs0 i) r) as [d' c'] eqn:D.
       destruct d'; [|injection H as _ <-; auto].
       (* the slot after deletion *)
       assert (Li : i < 17) by (inversion Hk; lia).
       assert (SL : c' = Nil \/ slot_ok i c').
       { apply vkey_cons_inv in Hk. destruct Hk as [[-> ->]|[L16 Hr]].
         - destruct f; [cbn in Hf; lia|]. cbn in D.
-          destruct H1 as [Q|[v0 Q]]; rewrite Q in D; injection D as _ <-; auto.
-        - destruct (child cs i) eqn:Q.
-          + destruct f; cbn in D; injection D as _ <-; auto.
-          + exfalso. assert (W : wf (Value v)) by (rewrite <- Q; apply H0; auto; rewrite Q; discriminate). inversion W.
-          + assert (W : wf (Short k n)) by (rewrite <- Q; apply H0; auto; rewrite Q; discriminate).
+          destruct H16 as [Q|[v1 Q]]; rewrite Q in D; inversion D; subst; auto.
+        - destruct (child cs0 i) eqn:Q.
+          + destruct f; cbn in D; inversion D; subst; auto.
+          + exfalso. assert (W : wf (Value v)) by (rewrite <- Q; apply Hch; auto; rewrite Q; discriminate). inversion W.
+          + assert (W : wf (Short k n)) by (rewrite <- Q; apply Hch; auto; rewrite Q; discriminate).
             pose proof (IHf _ _ _ _ W Hr ltac:(cbn in Hf; lia) D) as R. cbn in R.
             destruct R as [->|R]; auto. right; left; auto.
-          + assert (W : wf (Full cs0)) by (rewrite <- Q; apply H0; auto; rewrite Q; discriminate).
+          + assert (W : wf (Full cs)) by (rewrite <- Q; apply Hch; auto; rewrite Q; discriminate).
             pose proof (IHf _ _ _ _ W Hr ltac:(cbn in Hf; lia) D) as R. cbn in R.
             right; left; auto. }
-      set (cs' := upd cs i c') in *.
+      set (cs' := upd cs0 i c') in *.
       assert (Lc : length cs' = 17) by (unfold cs'; rewrite length_upd; auto).
       assert (Cw : forall j, j < 16 -> child cs' j <> Nil -> wf (child cs' j)).
       { intros j Hj Hn'. unfold cs' in *. destruct (Nat.eq_dec i j) as [->|N].
@@ -397,19 +397,22 @@ Section WF.
         - rewrite child_upd_other by auto. auto. }
       (* at least one child is left *)
       assert (Ex : exists j, child cs' j <> Nil).
-      { destruct H2 as [a [b [N [A B]]]]. unfold cs'.
+      { destruct Htwo as [a [b [N [A B]]]]. unfold cs'.
         destruct (Nat.eq_dec a i) as [->|Na].
         - exists b. rewrite child_upd_other by auto; auto.
         - exists a. rewrite child_upd_other by auto; auto. }
       destruct (single_pos cs') as [pos|] eqn:SP.
       + destruct (single_pos_from_some _ _ _ SP) as [q [Eq [Lq [Nq Oq]]]]. cbn in Eq; subst q.
         destruct (negb (pos =? 16)) eqn:P16.
-        * apply negb_true_iff, Nat.eqb_neq in P16. assert (pos < 16) by lia.
-          pose proof (Cw pos H3 Nq) as Wp.
-          inversion Wp; subst; rewrite <- H4 in H; injection H as _ <-.
-          -- constructor. constructor; auto.
-          -- constructor; auto. discriminate. constructor; auto.
-          -- rewrite H4. constructor; auto. discriminate. repeat constructor; auto. rewrite <- H4; auto.
+        * apply negb_true_iff, Nat.eqb_neq in P16. assert (P : pos < 16) by lia.
+          pose proof (Cw pos P Nq) as Wp.
+          destruct (child cs' pos) as [|vv|k2 c2|cs2] eqn:CP; injection H as _ <-.
+          -- congruence.
+          -- inversion Wp.
+          -- inversion Wp; subst.
+             ++ constructor. constructor; auto.
+             ++ constructor; auto; [discriminate|constructor; auto].
+          -- constructor; auto; [discriminate|constructor; [exact P|constructor]].
         * apply negb_false_iff, Nat.eqb_eq in P16. subst pos. injection H as _ <-.
           destruct C16 as [Q|[v Q]]; [congruence|]. rewrite Q. constructor. constructor.
       + injection H as _ <-.
